@@ -94,7 +94,9 @@ func (e *c05Env) setRetryBase(v *vCore, base time.Duration) {
 
 // c05Boot builds a core with namespaces ns1/, ns1/ns2/ (plain) and optionally sns/ (own shamir seal).
 func c05Boot(t *testing.T, tx bool, sealable bool, retryBase time.Duration) *c05Env {
-	v := vBoot(t, vOpts{Transactional: tx})
+	v := vBoot(t, vOpts{Transactional: tx,
+		Logical:    map[string]logical.Factory{"c05rb": c05RBFactory(logical.TypeLogical)},
+		Credential: map[string]logical.Factory{"c05rb": c05RBFactory(logical.TypeCredential)}})
 	e := &c05Env{t: t, v: v, tx: tx}
 	e.setRetryBase(v, retryBase)
 	e.nss = append(e.nss, &c05NS{Path: "", NS: namespace.RootNamespace})
@@ -496,8 +498,13 @@ type c05Spec struct {
 	RoleXMax   time.Duration `json:"role_explicit_max"`
 	RolePeriod time.Duration `json:"role_period"`
 	Renewable  bool          `json:"renewable"`
-	Steps      []*c05Step    `json:"steps"`
-	Text       string        `json:"text"` // the same, readable (durations in the other fields are nanoseconds)
+	// RenewMode: how the backend answers the renew operation (secret / login kinds on a c05rb mount):
+	// "" or "echo" = the request's Secret/Auth is handed back; "fresh-ttl" = newly built lease options with only
+	// the TTL; "fresh-ttl-max" = TTL and the backend max; "fresh-issue-future" / "fresh-issue-past" = additionally
+	// an issue time one hour ahead / back
+	RenewMode string     `json:"backend_renew_mode,omitempty"`
+	Steps     []*c05Step `json:"steps"`
+	Text      string     `json:"text"` // the same, readable (durations in the other fields are nanoseconds)
 }
 
 func (sp *c05Spec) describe() {
@@ -511,6 +518,9 @@ func (sp *c05Spec) describe() {
 	}
 	sp.Text = fmt.Sprintf("%s ns=%q mount max/default=%s/%s system max=%s ttl=%s backend max=%s period=%s explicit max=%s role explicit max=%s role period=%s renewable=%v; %s",
 		sp.Kind, sp.NS, sp.MountMax, sp.MountDef, sp.SysMax, sp.TTL, sp.BMax, sp.Period, sp.XMax, sp.RoleXMax, sp.RolePeriod, sp.Renewable, strings.Join(st, "; "))
+	if sp.RenewMode != "" {
+		sp.Text += "; backend answers renewals: " + sp.RenewMode
+	}
 }
 
 type c05Round struct {
@@ -602,6 +612,8 @@ type c05Lease struct {
 	lastBound time.Time     // bound of the last grant
 	lastAlt   time.Time     // bound of the last grant had the role's explicit max been used instead of the token's own
 	lastStore time.Time     // stored expiry after the last observation
+	bmax      time.Duration // backend max as stated by the backend in its last granting answer
+	lastRenew time.Time     // bound of the last grant had the cap been counted from the renewal (narrow class only)
 }
 
 // observe returns the expiry as the API reports it and as it is stored.
@@ -650,8 +662,8 @@ func (l *c05Lease) bound(b0, b1 time.Time, mountMax, sysMax time.Duration, perio
 		}
 		return b, why
 	}
-	eff := c05MinPos(ms, l.sp.BMax, l.xmax)
-	return l.issueHi.Add(eff + slack), fmt.Sprintf("issue + effective max %s (mount/system %s, backend %s, explicit %s)", eff, ms, l.sp.BMax, l.xmax)
+	eff := c05MinPos(ms, l.bmax, l.xmax)
+	return l.issueHi.Add(eff + slack), fmt.Sprintf("issue + effective max %s (mount/system %s, backend %s, explicit %s)", eff, ms, l.bmax, l.xmax)
 }
 
 func (e *c05Env) tuneMount(v *vCore, ns, apiPath string, max, def time.Duration) error {
@@ -669,7 +681,7 @@ func (e *c05Env) runBoundCase(r *kit.Result, w *c05Worker, caseID string, sp c05
 	wit := func(extra ...any) map[string]any {
 		return map[string]any{"spec": sp, "extra": extra}
 	}
-	l := &c05Lease{sp: sp, ns: e.ns(sp.NS)}
+	l := &c05Lease{sp: sp, ns: e.ns(sp.NS), bmax: sp.BMax}
 	ownMount := sp.Kind == "secret" || sp.Kind == "secret-batch" || sp.Kind == "login" || sp.Kind == "login-batch"
 	tunePath := "sys/mounts/" + w.secret + "/tune"
 	if sp.Kind == "login" || sp.Kind == "login-batch" {
@@ -702,7 +714,7 @@ func (e *c05Env) runBoundCase(r *kit.Result, w *c05Worker, caseID string, sp c05
 	switch sp.Kind {
 	case "secret", "secret-batch":
 		resp, err = v.Do(vReq{Op: logical.ReadOperation, Path: w.secret + "/lease/x", Token: reqTok, NS: sp.NS,
-			Data: map[string]any{"ttl": c05Secs(sp.TTL), "max_ttl": c05Secs(sp.BMax), "non_renewable": !sp.Renewable}})
+			Data: map[string]any{"ttl": c05Secs(sp.TTL), "max_ttl": c05Secs(sp.BMax), "non_renewable": !sp.Renewable, "renew_mode": sp.RenewMode}})
 	case "login", "login-batch":
 		tt := "service"
 		if sp.Kind == "login-batch" {
@@ -710,7 +722,7 @@ func (e *c05Env) runBoundCase(r *kit.Result, w *c05Worker, caseID string, sp c05
 		}
 		resp, err = v.Do(vReq{Op: logical.UpdateOperation, Path: "auth/" + w.auth + "/login/u", NS: sp.NS,
 			Data: map[string]any{"ttl": c05Secs(sp.TTL), "max_ttl": c05Secs(sp.BMax), "period": c05Secs(sp.Period), "explicit_max_ttl": c05Secs(sp.XMax),
-				"policies": "default", "token_type": tt, "renewable": sp.Renewable}})
+				"policies": "default", "token_type": tt, "renewable": sp.Renewable, "renew_mode": sp.RenewMode}})
 	case "token":
 		data := map[string]any{"policies": []string{"default"}, "renewable": sp.Renewable}
 		if sp.TTL > 0 {
@@ -813,6 +825,12 @@ func (e *c05Env) runBoundCase(r *kit.Result, w *c05Worker, caseID string, sp c05
 			ok   bool
 		}{{"stored lease record", stored, storedOK}, {"API lookup", api, apiOK}} {
 			if o.ok && o.t.After(l.lastBound) {
+				if c05FreshMode(sp.RenewMode) && strings.HasPrefix(stage, "renewal") && !l.lastRenew.IsZero() && !o.t.After(l.lastRenew) {
+					// narrow signature: the backend answered the renewal with newly built lease options (no issue time
+					// echoed) and the expiry is past issue + max but within (time of this renewal, or the bogus issue
+					// time it stated) + max
+					class = "C05-renewal-bound-measured-from-renew-time"
+				}
 				if roleSig && !o.t.After(l.lastAlt) {
 					// narrow signature: a token created through a role with its own explicit_max_ttl below the role's
 					// (or the role has none) was renewed past its own explicit max but within what the role's value allows
@@ -908,9 +926,24 @@ func (e *c05Env) runBoundCase(r *kit.Result, w *c05Worker, caseID string, sp c05
 		if sp.Kind == "token-role" {
 			period = sp.RolePeriod // documented: the role's current period is used at renewal time
 		}
+		if sp.RenewMode == "fresh-ttl" {
+			l.bmax = 0 // the renewal answer states no backend max: only mount / system / explicit max bind from here on
+		}
 		nb, nwhy := l.bound(b0, b1, mountMax, sysMax, period)
 		l.lastBound, why = nb, nwhy
 		l.lastAlt = altBound(b0, b1)
+		if c05FreshMode(sp.RenewMode) {
+			fr := *l
+			fr.issueHi = b1
+			if sp.RenewMode == "fresh-issue-future" {
+				fr.issueHi = b1.Add(time.Hour)
+			}
+			l.lastRenew, _ = fr.bound(b0, b1, mountMax, sysMax, period)
+			r.Count("renewals_granted_by_backend_answering_with_fresh_lease_options", 1)
+			if st.Inc > 0 && gttl < st.Inc-time.Second {
+				r.Count("fresh_answer_renewals_capped_below_increment", 1)
+			}
+		}
 		if !check(stage, b0, gttl, true) {
 			return
 		}
